@@ -54,7 +54,9 @@ Pick3(S) ==
 
 ProbesFor(kind, S, counts, extra) ==
     { [ctx |-> kind, q |-> q, tag |-> extra,
-       fuzzy  |-> { n \in S : IsSubseqCI(q, n) },
+       \* with fuzzy matching on, a fragment that ends in a colon may also be matched without it ("food:" finds expenses:food):
+       \* the colon says "this segment is complete", it is not a character the name has to supply
+       fuzzy  |-> { n \in S : IsSubseqCI(q, n) \/ (Len(q) > 0 /\ SubSeq(q, Len(q), Len(q)) = ":" /\ IsSubseqCI(SubSeq(q, 1, Len(q) - 1), n)) },
        prefix |-> { n \in S : IsPrefixCI(q, n) },
        counts |-> { [name |-> n, n |-> counts[n]] : n \in S }] :
          q \in UNION { Fragments(n) : n \in Pick3(S) }
